@@ -519,3 +519,62 @@ func rb2SortedAssumptions(w *World) {
 		w.ok("binary-search|none-in-scope", token.NoPos, fmt.Sprintf("no binary search in the linker/options/sourceinfo/root packages (%d elsewhere in the module, used as the matcher's positive control)", nAll))
 	}
 }
+
+// RB3 (C04): membership scans over declaration-ordered lists have no negative early exit.
+// Reserved and extension ranges are kept in *declaration order* (`reserved 50 to 60, 10 to 20;` is
+// legal), and the Go runtime's Has answers membership regardless of order. A `Has` method of the
+// linker's range wrappers is a linear scan `for … { if match { return true } } return false`; a
+// `return false`, `break` or `goto` inside the loop exits on the assumption that later elements
+// cannot match — an ordering assumption the data does not satisfy.
+func rb3NoNegativeEarlyExit(w *World) {
+	w.rule("RB3")
+	p := w.pkg("linker")
+	if p == nil {
+		return
+	}
+	info := p.TypesInfo
+	n := 0
+	for _, b := range allFuncBodies(p) {
+		if b.Lit != nil || b.Decl.Recv == nil || b.Decl.Name.Name != "Has" || !strings.HasSuffix(w.Fset.Position(b.Decl.Pos()).Filename, "descriptors.go") {
+			continue
+		}
+		ast.Inspect(b.Body, func(x ast.Node) bool {
+			var body *ast.BlockStmt
+			switch l := x.(type) {
+			case *ast.RangeStmt:
+				body = l.Body
+			case *ast.ForStmt:
+				body = l.Body
+			default:
+				return true
+			}
+			n++
+			key := "membership-scan|" + b.Label
+			bad := ""
+			ast.Inspect(body, func(y ast.Node) bool {
+				switch s := y.(type) {
+				case *ast.FuncLit:
+					return false
+				case *ast.ReturnStmt:
+					if len(s.Results) == 1 {
+						if tv, ok := info.Types[s.Results[0]]; ok && tv.Value != nil && tv.Value.String() == "false" {
+							bad = "return false at " + w.pos(s.Pos())
+						}
+					}
+				case *ast.BranchStmt:
+					if s.Tok == token.BREAK || s.Tok == token.GOTO {
+						bad = s.Tok.String() + " at " + w.pos(s.Pos())
+					}
+				}
+				return true
+			})
+			if bad == "" {
+				w.ok(key, x.Pos(), "the scan leaves the loop early only with a positive answer")
+			} else {
+				w.violation(key, x.Pos(), "the membership scan gives up inside the loop ("+bad+"): that assumes the ranges are sorted, but they are stored in declaration order, so Has disagrees with the Go runtime for ranges declared out of order")
+			}
+			return false
+		})
+	}
+	w.floor("Has membership scans in linker/descriptors.go", n, 2)
+}
